@@ -31,6 +31,7 @@ UID = st.one_of(
     st.text("ABCDEFGHIJKLMNOPQRSTUVWXYZabcdefghijklmnopqrstuvwxyz0123456789_-", min_size=1, max_size=36),
     _HEX.map(lambda h: f"{h[:8]}-{h[8:12]}-{h[12:16]}-{h[16:20]}-{h[20:]}"),
     _HEX,
+    st.sampled_from(["null", "NULL", "None", "none", "nil", "0", "false", "N", "NaN", "-", "_"]),
 )
 BODY = "<OFX><A>1</A></OFX>"
 
